@@ -248,6 +248,9 @@ func (w *World) runPath(job Job, sol *Solver, prefix []int, pending *[][]int, st
 		}
 		if clean && sol.Check() == "sat" {
 			vec := ex.model()
+			if vec == nil {
+				vec = []ReplayVal{}
+			}
 			for _, v := range vec {
 				if strings.HasPrefix(v.Label, "err_") && v.Int != 0 {
 					clean = false
